@@ -3883,7 +3883,7 @@ Proof.
   split; [reflexivity|]. split; [reflexivity|].
   split; [change (length (hs (loop_fork s l)) = length (hs s)); apply fork_len|].
   split; [|split].
-  - intros h. rewrite G. destruct (fork_fields s l h) as (a&b&c&d&e&f&_). cbv zeta in *. auto.
+  - intros h. rewrite G. destruct (fork_fields s l h) as (a&b&c&d&e&f&_). cbv zeta in *. repeat split; auto.
   - intros h E. rewrite G. destruct (fork_fields s l h) as (_&_&_&_&_&_&_&_&b). apply b; auto.
   - intros h E. rewrite G. destruct (fork_fields s l h) as (_&_&_&_&_&_&_&a&_). apply a; auto.
 Qed.
@@ -3899,7 +3899,6 @@ Theorem fork_child_starts_afresh fx fs fr beh fuel c ops l h :
 Proof.
   cbv zeta. intros Hl El.
   destruct (sinv_run fx fs fr beh fuel c ops) as [C K].
-  pose proof (rule_run fx fs fr beh (fun _ _ => True) (fun _ _ _ _ => Logic.I)) as _.
   assert (Hb : batch (run fx fs fr beh fuel (init c) ops) = []).
   { apply (rule_run fx fs fr beh (fun _ _ => True)) with (Rq := fun _ _ => True); auto. }
   set (s := run fx fs fr beh fuel (init c) ops) in *.
@@ -3919,7 +3918,7 @@ Qed.
 
 (* the memory of a closed handle may be used again: nothing that names it is left anywhere, so
    the new handle can get no callback for a signal raised before it was started *)
-Lemma cnt_zero_filter h l : cnt h l = 0 -> filter (fun m : msg => fst m =? h) l = [].
+Lemma cnt_zero_filter h (l : list msg) : cnt h l = 0 -> @filter msg (fun m : nat * nat => fst m =? h) l = [].
 Proof.
   induction l as [|m l IH]; simpl; auto. destruct (fst m =? h); simpl; [discriminate|auto].
 Qed.
@@ -3940,9 +3939,11 @@ Proof.
     - destruct (Nat.eqb_spec (fst x) h); [lia|auto].
     - apply IH; auto. destruct (fst x =? h); lia. }
   split; [|split; [|split]].
-  - unfold psig. rewrite filter_app, (cnt_zero_filter h _ Pb), (cnt_zero_filter h _ Pp). reflexivity.
-  - intros l m Hm E. destruct (s_pipe _ C l m Hm) as [a _]. rewrite E in a. subst l. eapply Nz; eauto.
-  - intros m Hm. eapply Nz; eauto.
+  - unfold psig. rewrite filter_app.
+    rewrite (cnt_zero_filter h (batch s) Pb), (cnt_zero_filter h (pipe_of s (h_loop (get s h))) Pp). reflexivity || (simpl; reflexivity).
+  - intros l m Hm E. destruct (s_pipe _ C l m Hm) as [a _]. rewrite E in a. subst l.
+    exact (Nz _ m Pp Hm E).
+  - intros m Hm. exact (Nz _ m Pb Hm).
   - rewrite (s_tree _ C). pose proof (s_closed _ C h Hc) as Hcl. rewrite (K h Hcl). intuition.
 Qed.
 
